@@ -4,6 +4,7 @@ package checks
 
 import (
 	"fmt"
+	"os"
 	"path/filepath"
 	"strings"
 	"time"
@@ -30,6 +31,11 @@ func C04(c *core.Ctx) {
 		c.Inconclusive("Merge specification violates " + r.Violated + ": " + tailStr(r.ErrorTrace(), 500))
 		return
 	}
+	wd := filepath.Join(c.Work, "wd")
+	_ = os.MkdirAll(wd, 0o755)
+	for _, f := range []string{"a.env", "b.env", "a.label", "b.label"} {
+		_ = os.WriteFile(filepath.Join(wd, f), []byte("FROM_"+strings.ReplaceAll(f, ".", "_")+"=1\n"), 0o644)
+	}
 	n, invalid := 0, 0
 	attrs := map[string]int{}
 	_, err = core.ReadDump(dump+".dump", func(vars map[string]interface{}) error {
@@ -44,14 +50,14 @@ func C04(c *core.Ctx) {
 		for _, o := range asList(cs["overs"]) {
 			overs = append(overs, yamlOf(o))
 		}
-		docs := []namedDoc{{Name: "/work/base.yaml", Content: base}}
+		docs := []namedDoc{{Name: wd+"/base.yaml", Content: base}}
 		for i, o := range overs {
-			docs = append(docs, namedDoc{Name: fmt.Sprintf("/work/over%d.yaml", i+1), Content: o})
+			docs = append(docs, namedDoc{Name: fmt.Sprintf(wd+"/over%d.yaml", i+1), Content: o})
 		}
 		multi := base + "\n---\n" + strings.Join(overs, "\n---\n") + "\n"
-		pa, ea := safeLoad("/work", nil, docs)
-		pb, eb := safeLoad("/work", nil, []namedDoc{{Name: "/work/multi.yaml", Content: multi}})
-		pc, ec := safeLoad("/work", nil, []namedDoc{{Name: "/work/target.yaml", Content: target}})
+		pa, ea := safeLoad(wd, nil, docs)
+		pb, eb := safeLoad(wd, nil, []namedDoc{{Name: wd+"/multi.yaml", Content: multi}})
+		pc, ec := safeLoad(wd, nil, []namedDoc{{Name: wd+"/target.yaml", Content: target}})
 		nontrivial := target != base
 		c.Eval(attr+"|"+base+"|"+strings.Join(overs, "|"), nontrivial)
 		attrs[attr]++
